@@ -225,13 +225,14 @@ def check(prog, rep, tier):
     for node in ast.walk(op.node):
         if isinstance(node, ast.If) and 'FOUR_BYTES_ASN' in src_of(node.test):
             txt = ' '.join(src_of(s) for s in node.body)
-            if 'self.asn = ' in txt and "unpack('!I'" in txt:
+            direct = [s for s in node.body if isinstance(s, ast.Assign) and src_of(s.targets[0]) == 'self.asn']
+            if direct and "unpack('!I'" in txt:
                 good = True
     if good:
         rep.ok('R05.c', 'asn4-replaces-asn', file=op.file, line=op.node.lineno)
     else:
         rep.bad('R05.c', 'asn4-replaces-asn', file=op.file, line=op.node.lineno, func=op.qualname,
-                found='capability 65 does not replace self.asn with the 4-octet value', key='asn4-replaces-asn')
+                found='capability 65 does not unconditionally replace self.asn with the 4-octet value', key='asn4-replaces-asn')
     # accepted OPEN: negotiated hold = min(configured, proposed) with configured from configuration
     n_acc = 0
     for r in tab.get('WIRE', 'OpenSent'):
